@@ -979,6 +979,8 @@ impl Element {
                 if compatible_value {
                     // if this is a SHORT-NAME element a whole lot of handling is needed in order to unbreak all the cross references
                     let mut prev_path = None;
+                    // the path after the renaming is worked out in advance: once the name has been changed nothing may fail any more
+                    let mut next_path = None;
                     if self.element_name() == ElementName::ShortName {
                         // this SHORT-NAME element might be newly created, in which case there is no previous path
                         if self.character_data().is_some() {
@@ -992,6 +994,9 @@ impl Element {
                                             element: parent.element_name(),
                                             item_name: new_name.clone(),
                                         });
+                                    }
+                                    if old_path.ends_with(&current_name) {
+                                        next_path = Some(new_path);
                                     }
                                 }
                                 prev_path = Some(old_path);
@@ -1016,7 +1021,9 @@ impl Element {
 
                     // short-name: make sure the hashmap in the top-level AutosarModel is updated so that this element can still be found
                     if let Some(prev_path) = prev_path {
-                        if let Some(parent) = self.parent()? {
+                        if let Some(new_path) = next_path {
+                            model.fix_identifiables(&prev_path, &new_path);
+                        } else if let Some(parent) = self.parent()? {
                             let new_path = parent.path()?;
                             model.fix_identifiables(&prev_path, &new_path);
                         }
